@@ -140,6 +140,7 @@ def experiment(g, rule, flags=(), lose=None, seed=0, restore=False):
         r2, out = rec.sync(*flags); desc.append("resume sync -> %s" % out["exit"])
         resumed = out["exit"] == "ok"          # a refused resume (e.g. parity already cut, files put back) is judged by C14
         r3, out = rec.check(); desc.append("check -> %s" % out["exit"])
+        checked_clean = out["exit"] == "ok"    # (if not, that check step is where C07 - or a recorded finding met on the way - is reported)
         if resumed:
             rec.lines[-1]["args"]["expect_clean"] = True      # "running sync again completes and re-establishes the full guarantee"
         if lose is not None:
@@ -150,7 +151,7 @@ def experiment(g, rule, flags=(), lose=None, seed=0, restore=False):
                 c.lose_parity(i)
             rec.env("lose %s%d" % (kind, i), damage=True); desc.append("lose %s%d" % (kind, i))
             r4, out = rec.fix(); desc.append("fix -> %s" % out["exit"])
-            if resumed:
+            if resumed and checked_clean:
                 rec.lines[-1]["args"]["expect_c01"] = True
             r5, out = rec.check(); desc.append("check -> %s" % out["exit"])
         return rec, desc
